@@ -21,7 +21,8 @@ from typing import Any, Callable, Dict, Iterable, List, Optional, Sequence, Tupl
 
 ANSWERS = ("V1", "V2", "NEG", "BAD")
 NRC = 0x31
-OWN_DID_FLAG = 0x0080  # a variant's own re-definition of service X asks for did | 0x0080
+OWN_DID_FLAG = 0x0080  # a variant's own re-definition of service X asks for did | 0x0080 ...
+OWN_PAD = 0xEE  # ... and its positive response carries this constant byte before the payload
 
 # value alphabet per DOP type: python value of "value 1", "value 2" and of a third value that is never expected
 VALUES: Dict[str, Dict[str, Any]] = {
@@ -106,6 +107,8 @@ def response_bytes(svc: Dict[str, Any], answer: str, own: bool = False) -> bytes
     body = b"".join(wire(svc["type"], v) for v in item_values(svc, answer))
     if svc["layout"] == "tstruct":
         body = bytes([0x01]) + body  # table key selecting the only row
+    if own:
+        body = bytes([OWN_PAD]) + body  # a variant's own re-definition also has another response layout
     return bytes([0x62]) + did + body
 
 
